@@ -380,7 +380,11 @@ def correspond(ctx, binaries, cases, what='AnyId'):
             if im == ['<skipped>']:
                 stats['compared'] -= 1
                 continue
-            d = vlib.first_diff(model[i], im)
+            if 'lossyhash' in bname:
+                # the model's hash is the identity on digests; this variant's is not: which hashes are equal is not compared
+                d = vlib.first_diff([l for l in model[i] if not l.startswith('hh')], [l for l in im if not l.startswith('hh')])
+            else:
+                d = vlib.first_diff(model[i], im)
             orc = oracle(cases[int(i)], im)
             if d is None and not orc:
                 continue
